@@ -19,6 +19,9 @@
   What is abstract: the registry is a duplicate-free list of (address, root) — its robin-hood layout is C17's business;
   the slot order, which fixes the order of the pending list, is a *parameter* of every collection (`order`), so theorems
   quantify over it.  The marked set of a collection is a parameter too (computing it is C01's business).
+  Ownership is an arbitrary relation on identities — cycles included (a ring of boxes, a box that owns itself): a
+  destructor cascade terminates, as in the C code, because an object leaves the registry / has its pending slot cleared
+  *before* its destructor runs, so the `del` that comes back to it finds nothing.
   Objects are named by identities (`Addr`); a history never reuses an identity (a C address can be reused only after
   `free`, i.e. for what is a new identity here).
 
@@ -155,6 +158,9 @@ inductive Op where
   /-- `new`/`new_root`/`new_raw` of an object whose destructor will `del` the objects `owned`; `marks`/`order` are used
       if the registration triggers a threshold collection (which happens before the constructor runs) -/
   | new (a : Addr) (k : Kind) (owned : List Addr) (marks order : List Addr)
+  /-- `ref(a, x)` (Box_Ref): the owner `a` is re-pointed; from now on its destructor `del`s `owned`.  This is how
+      ownership cycles come about (a ring of boxes, a box owning itself); the previous pointee is simply dropped -/
+  | own (a : Addr) (owned : List Addr)
   /-- `del` / `del_root` / `del_raw` issued by the program -/
   | del (a : Addr) (k : Kind)
   /-- a collection (`GC_Mark; GC_Sweep`) whose mark phase marked `marks` -/
@@ -177,6 +183,7 @@ def step (c : Cfg) (s : St) : Op → St
         if s1.reg.length > s1.mitems then sweep c s1 marks order else s1
     -- the constructor (Box_New: `val` assigned) runs after the registration
     { s1 with owns := (a, owned) :: s1.owns }
+  | .own a owned => { s with owns := (a, owned) :: s.owns }
   | .del a k =>
     match k with
     | .raw => finalise (fuelFor s) c s a
